@@ -320,6 +320,15 @@ pub fn gen_read_scn(id: &str, rng: &Rng, tier: Tier) -> ReadScn {
     match id {
         "C01" | "C02" => {
             let fmt = if id == "C01" { Fmt::Fasta } else { Fmt::Fastq };
+            if rng.chance(1, 1500) {
+                // readers opened by path: tiny, empty and ordinary files, default or explicit capacity
+                let (input, _) = any_input(rng, fmt, max_recs, max_noise);
+                let input = if rng.chance(1, 4) { input[..input.len().min(rng.range(0, 3))].to_vec() } else { input };
+                let mut cfg = Cfg::plain(if rng.chance(1, 2) { 65536 } else { rng.range(3, 64) });
+                cfg.policy = gen_permissive_policy(rng, input.len());
+                let n = model::build(fmt, &input).items.len();
+                return ReadScn { fmt, input, cfgs: vec![cfg], ops: ops_next_to_end(n), mon: Monitors::default(), profile: crate::drive::PATH_PROFILE.into() };
+            }
             if rng.chance(1, 4000) {
                 // interrupt storm / short reads into a large buffer
                 let input = many_small_records(rng, fmt, rng.range(2000, 6000));
@@ -366,7 +375,7 @@ pub fn gen_read_scn(id: &str, rng: &Rng, tier: Tier) -> ReadScn {
                         Fmt::Fastq => input.extend_from_slice(b"@a\nC\n+\nI\n"),
                     }
                 }
-                let cfg = Cfg { cap: rng.range(64, 4096), policy: PolicySpec::Std, script: vec![], cuts: vec![], faults: vec![] };
+                let cfg = Cfg { cap: rng.range(64, 4096), policy: PolicySpec::Std, script: vec![], cuts: vec![], faults: vec![], intr_burst: None };
                 let mut ops = ops_next_to_end(k);
                 // and a few seeks far into the file
                 for _ in 0..6 {
@@ -403,7 +412,7 @@ pub fn gen_read_scn(id: &str, rng: &Rng, tier: Tier) -> ReadScn {
             if id == "C05" && rng.chance(1, 4) {
                 // "from any reader state": also after an I/O error has been returned
                 let est_calls = 2 * input.len() / cfg.cap.max(1) + 6;
-                cfg.faults.push(Fault { call: rng.small(est_calls), kind: rng.pick(FAULT_KINDS).to_string() });
+                cfg.faults.push(Fault { call: rng.small(est_calls), kind: rng.pick(FAULT_KINDS).to_string(), payload: gen_payload(rng) });
             }
             let m = model::build(fmt, &input);
             let n = m.items.len();
@@ -417,6 +426,11 @@ pub fn gen_read_scn(id: &str, rng: &Rng, tier: Tier) -> ReadScn {
             if rng.chance(1, 8) {
                 let at = rng.below(ops.len() as u64 + 1) as usize;
                 ops.insert(at, Op::ShrinkSet(rng.below(N_SLOTS as u64) as usize));
+            }
+            if rng.chance(1, 8) {
+                // a (growing) policy installed in mid-stream must not disturb positions or the stream
+                let at = rng.below(ops.len() as u64 + 1) as usize;
+                ops.insert(at, Op::SetPolicy(gen_permissive_policy(rng, input.len())));
             }
             if id == "C04" && rng.chance(1, 6) && n > 1 {
                 // a second reader on (a tail of) the same input, re-using the record sets
@@ -439,7 +453,7 @@ pub fn gen_read_scn(id: &str, rng: &Rng, tier: Tier) -> ReadScn {
             if profile >= 2 {
                 let est_calls = 2 * input.len() / cfg.cap.max(1) + 6;
                 for _ in 0..rng.range(1, 2) {
-                    cfg.faults.push(Fault { call: rng.small(est_calls), kind: rng.pick(FAULT_KINDS).to_string() });
+                    cfg.faults.push(Fault { call: rng.small(est_calls), kind: rng.pick(FAULT_KINDS).to_string(), payload: gen_payload(rng) });
                 }
             }
             let m = model::build(fmt, &input);
@@ -462,7 +476,7 @@ pub fn gen_read_scn(id: &str, rng: &Rng, tier: Tier) -> ReadScn {
             if id == "C19" && rng.chance(1, 300) {
                 // several KiB inside one reader buffer; record sets that start far from offset 0
                 let input = many_small_records(rng, fmt, rng.range(9000, 20000));
-                let cfg = Cfg { cap: rng.range(8192, 16384), policy: PolicySpec::Std, script: vec![], cuts: vec![], faults: vec![] };
+                let cfg = Cfg { cap: rng.range(8192, 16384), policy: PolicySpec::Std, script: vec![], cuts: vec![], faults: vec![], intr_burst: None };
                 let mut ops = vec![];
                 for _ in 0..rng.range(3, 12) {
                     for _ in 0..rng.range(0, 60) {
@@ -505,7 +519,7 @@ pub fn gen_read_scn(id: &str, rng: &Rng, tier: Tier) -> ReadScn {
                     cfg.policy = gen_refusing_policy(rng, cfg.cap);
                 } else {
                     let est_calls = 2 * input.len() / cfg.cap.max(1) + 6;
-                    cfg.faults.push(Fault { call: 1 + rng.small(est_calls), kind: rng.pick(FAULT_KINDS).to_string() });
+                    cfg.faults.push(Fault { call: 1 + rng.small(est_calls), kind: rng.pick(FAULT_KINDS).to_string(), payload: gen_payload(rng) });
                 }
             }
             let m = model::build(fmt, &input);
